@@ -75,7 +75,7 @@ def jobs(tier):
     out = []
     for t in topologies():
         hy = t['name'] == 'loop_hy'
-        K = (4 if q else 5)
+        K = (4 if q else 6)
         if hy:
             K = 3 if q else 4
         masks = list(T.sync_masks(t, 'extremes' if (q or len(t['types']) > 2) else 'all'))
